@@ -47,7 +47,8 @@ enum {
     F_SCRIPT_NOW, F_SCRIPT_PAST, F_SCRIPT_CURRENT, F_SCRIPT_FUTURE, F_RESCHED_SELF, F_CANCEL_IN_BATCH, F_CANCEL_ASAP,
     F_CANCEL_TIMED, F_NESTED_CANCEL, F_EQUAL_TIMES, F_TIME_MAX, F_TIMED_ZERO, F_CLEANUP_PENDING, F_CLEANUP_LOOPED,
     F_RUN_BACKWARDS, F_NOT_DUE_LEFT, F_HEAP_GREW, F_MIXED_BATCH, F_SELF_CANCEL, F_CANCEL_NEW_IN_BATCH, F_JUST_EARLY,
-    F_EXACTLY_DUE, F_TOP_CANCEL, F_RUN_EMPTY, F_CANCEL_UNSCHEDULED, F_CANCEL_UNSCHEDULED_HEAP, F_CLEANUP_CHAIN_17, F_DIRTY_NODE
+    F_EXACTLY_DUE, F_TOP_CANCEL, F_RUN_EMPTY, F_CANCEL_UNSCHEDULED, F_CANCEL_UNSCHEDULED_HEAP, F_CLEANUP_CHAIN_17, F_DIRTY_NODE,
+    F_BURST_OF_DUE_TIMERS
 };
 
 struct slot {
@@ -1164,6 +1165,114 @@ static void on_alarm(int sig) {
     }
 }
 
+/* ------------------------------------------------------------------ a burst of timers
+ * 20 000 .. 200 000 timed tasks that are all due by one run-all call (plus a few run-now tasks and one far-future task), handed
+ * over in scrambled time order: that one call must run every one of them, in non-decreasing time order, the run-now tasks
+ * first; afterwards only the far task is pending and the next-task-time is its time. Self-contained (own task pool, own
+ * callback); run every 4096th case. */
+struct burst_task {
+    struct aws_task task;
+    uint64_t when; /* 0: run-now */
+    uint32_t runs, cancels;
+};
+static struct {
+    struct burst_task *t;
+    size_t n, invoked, order_errors, early;
+    uint64_t now, last_when;
+    bool seen_timed;
+} B;
+
+static void burst_fn(struct aws_task *task, void *arg, enum aws_task_status status) {
+    (void)task;
+    struct burst_task *bt = arg;
+    if (status == AWS_TASK_STATUS_RUN_READY) {
+        ++bt->runs;
+        ++B.invoked;
+        if (bt->when > B.now) {
+            ++B.early;
+        }
+        if (bt->when == 0) {
+            if (B.seen_timed) {
+                ++B.order_errors;
+            }
+        } else {
+            B.seen_timed = true;
+            if (bt->when < B.last_when) {
+                ++B.order_errors;
+            }
+            B.last_when = bt->when;
+        }
+    } else {
+        ++bt->cancels;
+    }
+}
+
+static void burst_case(void) {
+    struct mon_rng *r = &mon_case_rng;
+    static const size_t NN[] = {20000, 65535, 65536, 65537, 70000, 131073, 200000};
+    size_t n = NN[mon_below(r, sizeof(NN) / sizeof(NN[0]))];
+    size_t n_now = (size_t)mon_below(r, 50);
+    memset(&B, 0, sizeof(B));
+    B.n = n + n_now + 1;
+    B.t = calloc(B.n, sizeof(*B.t));
+    if (!B.t) {
+        mon_count("burst_case_skipped_no_memory", 1);
+        return;
+    }
+    mon_fp(0xB0057 + n);
+    struct aws_task_scheduler sched;
+    if (aws_task_scheduler_init(&sched, mon_guard_allocator())) {
+        VIOL("C07:init-failed", "aws_task_scheduler_init failed (%d)", aws_last_error());
+        free(B.t);
+        return;
+    }
+    const uint64_t T = 1000000, FAR = 5 * T;
+    bool distinct_times = mon_chance(r, 1, 2);
+    for (size_t i = 0; i < B.n; ++i) {
+        struct burst_task *bt = &B.t[i];
+        aws_task_init(&bt->task, burst_fn, bt, "c07-burst");
+        if (i < n) {
+            bt->when = distinct_times ? 1 + (uint64_t)((i * 7919) % n) : 1 + mon_below(r, 1000); /* scrambled, all <= T */
+            aws_task_scheduler_schedule_future(&sched, &bt->task, bt->when);
+        } else if (i < n + n_now) {
+            bt->when = 0;
+            aws_task_scheduler_schedule_now(&sched, &bt->task);
+        } else {
+            bt->when = FAR;
+            aws_task_scheduler_schedule_future(&sched, &bt->task, FAR);
+        }
+    }
+    B.now = T;
+    aws_task_scheduler_run_all(&sched, T);
+    size_t due = n + n_now;
+    if (B.invoked != due) {
+        VIOL("C07:burst:not-run-when-due", "%zu timed and %zu run-now tasks were due at run_all(%llu): %zu ran, %zu were left waiting for a later call", n, n_now,
+             (unsigned long long)T, B.invoked, due - B.invoked);
+    }
+    if (B.order_errors || B.early) {
+        VIOL("C07:burst:order", "burst of %zu due tasks: %zu ran out of order, %zu before their time", due, B.order_errors, B.early);
+    }
+    uint64_t next = 0;
+    bool has = aws_task_scheduler_has_tasks(&sched, &next);
+    if (B.invoked == due && (!has || next != FAR)) {
+        VIOL("C07:burst:next-time", "after the burst only the task at %llu is pending: has_tasks=%d next=%llu", (unsigned long long)FAR, (int)has, (unsigned long long)next);
+    }
+    aws_task_scheduler_clean_up(&sched);
+    size_t bad = 0;
+    for (size_t i = 0; i < B.n; ++i) {
+        bad += (B.t[i].runs + B.t[i].cancels) != 1;
+    }
+    if (bad) {
+        VIOL("C07:burst:exactly-once", "burst of %zu tasks: %zu were not invoked exactly once by run_all + clean_up", B.n, bad);
+    }
+    if (B.t[B.n - 1].cancels != 1 && !bad) {
+        VIOL("C07:burst:exactly-once", "the far-future task was %s", B.t[B.n - 1].runs ? "run early" : "never cancelled by clean_up");
+    }
+    free(B.t);
+    mon_flag(F_BURST_OF_DUE_TIMERS);
+    mon_count("bursts_of_20000_to_200000_due_timers", 1);
+}
+
 int main(int argc, char **argv) {
     mon_init(argc, argv, "C07");
     aws_common_library_init(aws_default_allocator());
@@ -1176,7 +1285,7 @@ int main(int argc, char **argv) {
         "cancel_of_task_scheduled_during_batch", "task_due_one_tick_after_run_all_time", "task_due_exactly_at_run_all_time",
         "top_level_cancel", "run_all_with_nothing_due", "cancel_of_never_scheduled_task",
         "cancel_of_never_scheduled_task_while_heap_nonempty", "clean_up_unwound_chain_of_17_or_more_generations",
-        "task_node_carried_stale_links_when_scheduled"};
+        "task_node_carried_stale_links_when_scheduled", "burst_of_20000_or_more_due_timers"};
     for (int i = 0; i < (int)(sizeof(names) / sizeof(names[0])); ++i) {
         mon_flag_name(i, names[i]);
     }
@@ -1190,7 +1299,11 @@ int main(int argc, char **argv) {
         if (sigsetjmp(s_hang_jmp, 1) == 0) {
             s_hang_armed = 1;
             alarm(HANG_SECONDS);
-            run_case(c);
+            if (c % 4096 == 4095) {
+                burst_case();
+            } else {
+                run_case(c);
+            }
             alarm(0);
             s_hang_armed = 0;
         } else {
@@ -1200,7 +1313,7 @@ int main(int argc, char **argv) {
             s_ncx = 0;
             s_nret = s_ret_checked = 0;
         }
-        mon_case_end(s_saw_reentrant && s_saw_batch2 && mon_flag_count() >= 5);
+        mon_case_end((c % 4096 == 4095) || (s_saw_reentrant && s_saw_batch2 && mon_flag_count() >= 5));
     }
     free(s_ret);
     return mon_finish();
